@@ -1,5 +1,5 @@
 /-
-M7 (crash part): the file-system steps the file-backed writers issue, **as fixed by D6a / D6b / D14**,
+M7 (crash part): the file-system steps the file-backed writers issue, **as fixed by D6a / D6b / D17**,
 a crash after any number of them (the next one possibly a partial `append`), and what a fresh object
 reads afterwards.
 
@@ -78,7 +78,7 @@ def readC (c : FileCfg) (d : CDir) (k : Str) : Option CState × Option CMeta :=
 inductive SName where
   | node (k : Key)       -- `root/k`
   | metaDir (k : Key)    -- `root/k/__metadata__`
-  | meta (k : Key)       -- `root/parent(k)/__metadata__/<name(k)>.json`
+  | mfile (k : Key)      -- `root/parent(k)/__metadata__/<name(k)>.json`
   | tmp (k : Key)        -- `tmp_*` inside `root/k/__metadata__`
   deriving DecidableEq, Repr, Inhabited
 
@@ -118,16 +118,16 @@ def unlinkIfPresent (t : Tree) (n : SName) : List (Step SName) :=
 
 /-- `FileStore.store(key, data, metadata)`: parents, unpublish the old metadata, data, metadata -/
 def storeStepsT (t : Tree) (k : Key) (b mb : Data) : List (Step SName) :=
-  mkdirsT t (parentNodes k) ++ unlinkIfPresent t (.meta k) ++ mkdirsT t [.metaDir (parentKey k)] ++
-  writeFileT (parentKey k) (.node k) b ++ writeFileT (parentKey k) (.meta k) mb
+  mkdirsT t (parentNodes k) ++ unlinkIfPresent t (.mfile k) ++ mkdirsT t [.metaDir (parentKey k)] ++
+  writeFileT (parentKey k) (.node k) b ++ writeFileT (parentKey k) (.mfile k) mb
 
 /-- `FileStore.store_metadata(key, metadata)` -/
 def storeMetaStepsT (t : Tree) (k : Key) (mb : Data) : List (Step SName) :=
-  mkdirsT t (parentNodes k ++ [.metaDir (parentKey k)]) ++ writeFileT (parentKey k) (.meta k) mb
+  mkdirsT t (parentNodes k ++ [.metaDir (parentKey k)]) ++ writeFileT (parentKey k) (.mfile k) mb
 
 /-- `FileStore.remove(key)`: data, then metadata (`FileNotFoundError` ignored) -/
 def removeStepsT (t : Tree) (k : Key) : List (Step SName) :=
-  unlinkIfPresent t (.node k) ++ unlinkIfPresent t (.meta k)
+  unlinkIfPresent t (.node k) ++ unlinkIfPresent t (.mfile k)
 
 /-- a fresh `FileStore`: `get_bytes(k)` (`none` = raises) -/
 def readBytesT (t : Tree) (k : Key) : Option Data :=
@@ -140,7 +140,7 @@ a directory, or a data file without metadata — status `external`) -/
 def readMetaT (t : Tree) (k : Key) : Option Data :=
   match AL.get t (.node k) with
   | some .dir => none
-  | _ => match AL.get t (.meta k) with
+  | _ => match AL.get t (.mfile k) with
     | some (.file d) => some d
     | _ => none
 
@@ -148,7 +148,7 @@ def readMetaT (t : Tree) (k : Key) : Option Data :=
 def readSC (deM : Data → Option CMeta) (deD : Str → Data → Option (Option Str)) (t : Tree) (p : Key) : Option CState :=
   match AL.get t (.node p) with
   | some (.file d) =>
-    match AL.get t (.meta p) with
+    match AL.get t (.mfile p) with
     | some (.file mb) =>
       match deM mb with
       | some m => if m.status != ready then none else
